@@ -313,6 +313,7 @@ contract(
         "light_feasibility": True,
         "havoc_unknown_externals": True,
         "havoc_hook": havoc_hook,
+        "props": ["C13", "C09", "C03"],  # carried by the obligations of the tracked calls (O3, O4, O6, ensure_import order)
     },
     safety_props=["C18", "C15"],
     assumes=["A-frame", "X13", "PS5"],
